@@ -12,7 +12,8 @@ RULE = ("Events.tla holds the specification's event-type tables per event kind a
         "redacted (content redacted for room versions 1 and 11) and deserializes each into every applicable Any*Event enum. "
         "Trace_C18 judges every record: deserializes, known / custom variant by type, redacted variant, type string kept, accessors "
         "equal to the JSON, content serialise -> deserialise -> serialise fixpoint without duplicate keys, no present value "
-        "changed (also for the typed redacted content of the seven event types that keep fields when redacted), key-order independence, Raw byte-identical and get_field consistent. Non-trivial = every record.")
+        "changed (also for the typed redacted content of the seven event types that keep fields when redacted), key-order independence, "
+        "independence of how the value of `type` is spelled (first character as \\uXXXX, `/` as \\/: same variant, same answers), Raw byte-identical and get_field consistent. Non-trivial = every record.")
 
 K_JR = "events/redacted-event-fails-to-deserialize/m.room.join_rules"
 K_MSG = "events/content-serializes-duplicate-keys/m.room.message-custom-msgtype-with-relation"
@@ -56,7 +57,7 @@ def run(rep, tier):
             what = ("wrong-variant" if (r["known"] != (r["type"].startswith("m.") and not r["type"].endswith("unknown")) and False) else
                     "dispatch-or-accessors" if not (r["acc_ok"] and r["type_out"] == r["type"]) else
                     "content-not-a-fixpoint" if not r["fix_ok"] else "present-value-changed" if not r["subsumes"] else
-                    "depends-on-key-order" if not r["order_indep"] else "raw" if not (r["raw_identical"] and r["raw_field_ok"]) else "variant-or-redaction")
+                    "depends-on-type-spelling" if not r["spelling_indep"] else "depends-on-key-order" if not r["order_indep"] else "raw" if not (r["raw_identical"] and r["raw_field_ok"]) else "variant-or-redaction")
             rep.violation("events/%s/%s" % (what, r["type"]), det)
     rep.sample({"record": {k: recs[17][k] for k in ("type", "format", "variant", "redacted_in", "target", "ok", "known", "redacted_out", "fix_ok", "event")}})
     rep.cov["evaluations"] = len(recs)
